@@ -394,3 +394,21 @@ func CheckEncodableTable() error {
 	}
 	return nil
 }
+
+// genExtendDecoy is a short, ordinary session (one int4 row) on a server whose
+// ExtendTypes option re-registers text, varchar, timestamp and numeric with
+// other codecs. The session itself touches none of them; the cases that run
+// after it in the same process - on servers without that option - must not
+// notice that it ever ran.
+func genExtendDecoy(r *Rand) *Case {
+	c := &Case{Variant: "type-extension-decoy", Server: ServerCfg{Limit: 4096, ExtendTypes: r.Range(1, 2), ExtendReal: true}, Programs: map[string]*Program{}}
+	c.Programs["k"] = &Program{Stmts: []*StmtProg{{Cols: []ColSpec{{Name: "n", OID: pgwire.OIDInt4}}, Ops: []Op{{K: "row", Row: []Val{{G: "int32", I: int64(r.Intn(100))}}}, {K: "complete", Tag: "SELECT 1"}}}}}
+	msgs := []pgwire.FMsg{{K: "Q", S1: "k"}}
+	if r.Bool() {
+		msgs = append(msgs, pgwire.FMsg{K: "X"})
+	}
+	for n := r.Range(1, 3); n > 0; n-- {
+		c.Conns = append(c.Conns, ConnCase{Steps: []Step{{Msgs: []pgwire.FMsg{startupMsg("ext"+r.Ident(2), "d")}}, {Msgs: msgs}}})
+	}
+	return c
+}
